@@ -340,11 +340,16 @@ pub fn curve(fam: &str, seed: u64, n: usize) -> Vec<Value> {
 /// transforms; the harness quantises the true outline for the specification (`quantize`)
 pub fn curve_float(fam: &str, seed: u64, n: usize) -> Vec<Value> {
     let mut r = Rng::new(seed ^ 0xF10A7 ^ (fam.len() as u64) << 20);
+    // "curve-big": the same shapes four times larger on a 64 x 64 surface (curves long enough for the
+    // rasteriser's subdivision count to matter), at most 3 ops
+    let big = fam == "curve-big";
+    let sf = if big { 4.0 } else { 1.0 };
+    let size = if big { 64 } else { 16 };
     let mut out = Vec::new();
     for i in 0..n {
         let mut ops = Vec::new();
-        let nops = r.range(2, 5);
-        let pt = |r: &mut Rng| ((r.frange(-1.0, 17.0) * 1000.0).round() / 1000.0, (r.frange(-1.0, 17.0) * 1000.0).round() / 1000.0);
+        let nops = if big { r.range(2, 3) } else { r.range(2, 5) };
+        let pt = |r: &mut Rng| ((r.frange(-1.0, 17.0) * sf * 1000.0).round() / 1000.0, (r.frange(-1.0, 17.0) * sf * 1000.0).round() / 1000.0);
         for j in 0..nops {
             match r.range(0, 10) {
                 0 if j > 0 => ops.push(json!(["Z"])),
@@ -365,8 +370,8 @@ pub fn curve_float(fam: &str, seed: u64, n: usize) -> Vec<Value> {
                     ops.push(json!(["C", c.0, c.1, d.0, d.1, p.0, p.1]));
                 }
                 _ => {
-                    let c = ((r.frange(3.0, 13.0) * 1000.0).round() / 1000.0, (r.frange(3.0, 13.0) * 1000.0).round() / 1000.0);
-                    ops.push(json!(["A", c.0, c.1, (r.frange(1.0, 5.0) * 100.0).round() / 100.0,
+                    let c = ((r.frange(3.0, 13.0) * sf * 1000.0).round() / 1000.0, (r.frange(3.0, 13.0) * sf * 1000.0).round() / 1000.0);
+                    ops.push(json!(["A", c.0, c.1, (r.frange(1.0, 5.0) * sf * 100.0).round() / 100.0,
                                     (r.frange(-7.0, 7.0) * 1000.0).round() / 1000.0, (r.frange(-8.0, 8.0) * 1000.0).round() / 1000.0]));
                 }
             }
@@ -392,7 +397,8 @@ pub fn curve_float(fam: &str, seed: u64, n: usize) -> Vec<Value> {
         } else {
             (m11, m12, m21, m22)
         };
-        let (m31, m32) = (8.0 - (8.0 * m11 + 8.0 * m21), 8.0 - (8.0 * m12 + 8.0 * m22));
+        let cc = 8.0 * sf;
+        let (m31, m32) = (cc - (cc * m11 + cc * m21), cc - (cc * m12 + cc * m22));
         let ident = r.chance(1, 4);
         if stroke {
             let m = if ident { vec![1.0, 0.0, 0.0, 1.0, 0.0, 0.0] } else { vec![f(m11), f(m12), f(m21), f(m22), f(m31), f(m32)] };
@@ -405,8 +411,85 @@ pub fn curve_float(fam: &str, seed: u64, n: usize) -> Vec<Value> {
         }
         let m = if ident { vec![1.0, 0.0, 0.0, 1.0, 0.0, 0.0] } else { vec![f(m11), f(m12), f(m21), f(m22), f(m31), f(m32)] };
         out.push(json!({"id": format!("drv-{}-{}-{}", fam, seed, i), "fam": "stroke", "kind": if r.chance(1, 5) { "clip" } else { "fill" },
-                         "w": 16, "h": 16, "den": 1, "ops": ops, "rule": if r.chance(1, 2) { "NonZero" } else { "EvenOdd" },
-                         "ctm": {"m": m, "mden": 1}, "quantize": true}));
+                         "w": size, "h": size, "den": 1, "ops": ops, "rule": if r.chance(1, 2) { "NonZero" } else { "EvenOdd" },
+                         "ctm": {"m": m, "mden": 1}, "quantize": true, "stride": if big { 3 } else { 1 }}));
+    }
+    out
+}
+
+/// dash_path inputs without rendering (`render: false`, `want_dash_path`): 1-3 subpaths of 1-3
+/// segments from an axis / 3-4-5 move menu (integer lengths), open or closed (only when the
+/// closing segment has integer length), dash arrays of 1-4 entries, offsets of both signs.
+/// Index-driven: scenario i of seed s is a function of (s, i), the first block enumerates the
+/// single-subpath domain in order.
+pub fn dashops(seed: u64, n: usize) -> Vec<Value> {
+    let moves: [(i32, i32); 16] = [(1, 0), (2, 0), (3, 0), (5, 0), (0, 1), (0, 2), (0, 3), (-1, 0), (-2, 0), (0, -2), (3, 4), (4, 3), (-3, 4), (4, -3), (-4, -3), (0, -1)];
+    let entries: [i32; 7] = [1, 2, 3, 5, 9, 15, 40];
+    let mut r = Rng::new(seed ^ 0xDA5);
+    let mut out = Vec::new();
+    let isq = |v: i32| -> Option<i32> {
+        let s = (v as f64).sqrt().round() as i32;
+        if s * s == v { Some(s) } else { None }
+    };
+    let mut i = 0usize;
+    while out.len() < n && i < n * 20 {
+        i += 1;
+        let nsub = match r.range(0, 9) { 0..=3 => 1, 4..=7 => 2, _ => 3 };
+        let mut ops = Vec::new();
+        let mut ok = true;
+        for _ in 0..nsub {
+            let (mut x, mut y) = (r.range(8, 18) as i32, r.range(8, 18) as i32);
+            let (sx, sy) = (x, y);
+            ops.push(json!(["M", x, y]));
+            let nseg = r.range(1, 3);
+            for _ in 0..nseg {
+                let m = moves[r.range(0, 15) as usize];
+                x += m.0;
+                y += m.1;
+                ops.push(json!(["L", x, y]));
+            }
+            if r.chance(1, 2) {
+                let d2 = (x - sx) * (x - sx) + (y - sy) * (y - sy);
+                match isq(d2) {
+                    Some(_) => ops.push(json!(["Z"])),
+                    None => ok = false,
+                }
+            }
+        }
+        if !ok {
+            continue;
+        }
+        let na = r.range(1, 4);
+        let dash: Vec<i32> = (0..na).map(|_| entries[r.range(0, 6) as usize]).collect();
+        let off = r.range(0, 40) as i32 - 20;
+        out.push(json!({"id": format!("drv-dashops-{}-{}", seed, out.len()), "fam": "stroke", "kind": "stroke", "render": false,
+                         "want_dash_path": true, "w": 1, "h": 1, "den": 1, "k": 5, "ops": ops,
+                         "style": {"width": 2, "cap": "Butt", "join": "Miter", "miter": [4, 1], "dash": dash, "dash_offset": off},
+                         "ctm": {"m": [1, 0, 0, 1, 0, 0], "mden": 1}}));
+    }
+    out
+}
+
+/// one large quadratic per scenario whose second difference 2c - p0 - p2 sweeps all directions in n
+/// equal steps (phase by seed), chord orientation varying independently: systematic coverage of
+/// the direction-dependent case analysis in the rasteriser's curve set-up (subdivision count,
+/// monotonic chopping) on curves long enough for it to matter.  64 x 64 surface, stride 3.
+pub fn curve_sweep(seed: u64, n: usize) -> Vec<Value> {
+    let mut out = Vec::new();
+    let tau = std::f64::consts::PI * 2.0;
+    let phase = (seed % 97) as f64 / 97.0;
+    for k in 0..n {
+        let th = tau * (k as f64 + phase) / n as f64;
+        let phi = tau * ((k as f64 * 0.618_033_988_75 + seed as f64 * 0.37) % 1.0);
+        let rad = if k % 2 == 0 { 56.0 } else { 36.0 };
+        let (hx, hy) = (22.0 * phi.cos(), 22.0 * phi.sin());
+        let (p0, p2) = ((32.0 - hx, 32.0 - hy), (32.0 + hx, 32.0 + hy));
+        let c = (32.0 + rad * th.cos() / 2.0, 32.0 + rad * th.sin() / 2.0);
+        let f = |v: f64| (v * 1000.0).round() / 1000.0;
+        let ops = json!([["M", f(p0.0), f(p0.1)], ["Q", f(c.0), f(c.1), f(p2.0), f(p2.1)]]);
+        out.push(json!({"id": format!("drv-curve-sweep-{}-{}", seed, k), "fam": "stroke", "kind": if k % 5 == 4 { "clip" } else { "fill" },
+                         "w": 64, "h": 64, "den": 1, "ops": ops, "rule": "NonZero",
+                         "ctm": {"m": [1.0, 0.0, 0.0, 1.0, 0.0, 0.0], "mden": 1}, "quantize": true, "stride": 3}));
     }
     out
 }
